@@ -37,7 +37,9 @@ def actisense_composition(chk, program, lengths, rule):
         it = A.Interp()
         toks = it.tokens(res).items
         shape = [t.pieces[0][0] if len(t.pieces) == 1 else 'mixed' for t in toks]
-        chk.check(shape == ['hexint', 'hexint', 'hexbytes'], rule, f"actisense::tokens@L={L}", file=ENC, line=program.fn('encoder', 'NMEA2000Encoder.encode_actisense').lineno,
+        # three space-separated tokens of hex digits (a token may be several formatted pieces written side by side: its value is what the reader parses below)
+        hexish = lambda t: all(p[0] in ('hexint', 'hexbytes') or (p[0] == 'lit' and all(ch in '0123456789ABCDEFabcdef' for ch in p[1])) for p in t.pieces)
+        chk.check(len(toks) == 3 and all(hexish(t) for t in toks), rule, f"actisense::tokens@L={L}", file=ENC, line=program.fn('encoder', 'NMEA2000Encoder.encode_actisense').lineno,
                   func='encode_actisense', expected=['header hex', 'PGN hex', 'payload hex'], found=shape)
         line = A.AStr([('lit', 'A000123.456 ')] + list(res.pieces))
         try:
@@ -163,7 +165,8 @@ def run(chk, program, tier):
                 all(ch in '0123456789ABCDEF \r\n' for ch in lits) and all(p[0] in ('lit', 'hexint', 'hexbytes') for p in line.pieces)
             chk.check(ok_line, 'WF-LINE', f"yacht_devices::line@n={n}", file=ENC, line=program.fn('encoder', 'NMEA2000Encoder.encode_yacht_devices').lineno,
                       func='encode_yacht_devices', expected='hex tokens and single spaces, terminated by exactly one CR LF', found=repr(lits))
-            widths_ok = all((p[0] != 'hexint') or p[2] == 2 for p in line.pieces)
+            # every number is written with an even, fixed number of hex digits (whole bytes): 2 per data byte, or several bytes at once (the identifier as 8)
+            widths_ok = all((p[0] != 'hexint') or (p[2] >= 2 and p[2] % 2 == 0 and (p[1].vec() is None or len(A.B.trim(p[1].vec())) <= 4 * p[2])) for p in line.pieces)
             chk.check(widths_ok, 'WF-LINE', f"yacht_devices::byte-width@n={n}", file=ENC, line=0, expected='two hex digits per byte', found=[p[2] for p in line.pieces if p[0] == 'hexint'], nontrivial=False)
             body = A.AStr([('lit', '12:00:00.000 R ')] + list(line.pieces))
             it = A.Interp()
